@@ -36,6 +36,9 @@ def keyfn(line, code):
 
 
 def run(ctx):
+    ctx.stream("regular_cert", gen.regular_cert_lines(ctx.rng.fork("regular_cert"), 1500 if ctx.quick else 40000),
+               "CMRregularTest on graphic / cographic matrices of every size, certified by their graph (graphic => regular: GraphicRegular.v)",
+               describe=lambda c: gen.REGULAR_CERT_CODES.get(c, str(c)), nontrivial=lambda l, r: True)
     from props import c10 as _c10
     ctx.stream("rel", gen.param_independence_lines(ctx.rng.fork("params"), 5000 if ctx.quick else 120000),
                "same verdict for every parameter combination: non-default parameters vs. defaults on permuted presentations (judge_rel, kind 1)",
